@@ -855,7 +855,7 @@ class Parent(Entity):  # A System, Zone, DhwZone or a UfhController
             if (  # the schema (SCH_TCS_UFH) allows no more than three
                 isinstance(child, UfhController)
                 and child not in self.childs
-                and sum(isinstance(c, UfhController) for c in self.childs) >= 3
+                and len({c for c in self.childs if isinstance(c, UfhController)}) >= 3
             ):
                 raise exc.SystemSchemaInconsistent(
                     f"{self} already has three UFH controllers (cannot add {child})"
